@@ -19,6 +19,7 @@ RULE = (
 REQUIRED = ["mll_value", "mll_grad", "loo_value", "priors_enumerated", "sum_mll_is_mean", "mll_value_stochastic"]
 ASSUMPTIONS = [
     "reference prior densities are torch.distributions of the documented family evaluated at the constrained value read through the public property",
+    "gradients on the dense paths are compared at max(1e-7, 1e-14*cond(K+S)) relative+absolute; cells with cond(K+S) > 1e9 are decided on the value only",
     "CG+SLQ path: K=24 repetitions, |mean - ref| <= 5 s.e. + 2e-3*|ref| + 1e-3 (value) ; gradients on that path compared at 5 s.e. + 5e-2 relative",
 ]
 ANCHOR_FILES = ["gpytorch/mlls/", "gpytorch/module.py", "gpytorch/distributions/multivariate_normal.py"]
@@ -204,6 +205,9 @@ def _build_ctor(case, g):
     return model, lik, X, y, [(getter(model), attr, logpdf) for getter, attr, logpdf in ref]
 
 
+_COND = {}
+
+
 def _dense_logp(model, lik, X, y, mt):
     """per batch element log N(y; mx, Kxx+S), differentiable w.r.t. the raw parameters, dense algebra only"""
     import torch
@@ -224,6 +228,7 @@ def _dense_logp(model, lik, X, y, mt):
         if getattr(lik, "has_global_noise", True):
             D = D + lik.noise * torch.eye(t)
         A = K + torch.kron(torch.eye(n), D)
+        _COND["A"] = float(torch.linalg.cond(A.detach()).max())
         return util.mvn_logpdf(y.reshape(-1), mx.reshape(-1), A), n * t
     if isinstance(lik, gpytorch.likelihoods.FixedNoiseGaussianLikelihood):
         r = lik.noise_covar.noise
@@ -232,6 +237,7 @@ def _dense_logp(model, lik, X, y, mt):
             Sn = Sn + lik.second_noise.unsqueeze(-1) * torch.eye(n)
     else:
         Sn = lik.noise.unsqueeze(-1) * torch.eye(n)
+    _COND["A"] = float(torch.linalg.cond((K + Sn).detach()).max())
     return util.mvn_logpdf(y, mx, K + Sn), n
 
 
@@ -336,12 +342,19 @@ def run_case(case, ctx):
         ggot = torch.autograd.grad(got.sum(), params, allow_unused=True)
     ctx.close("mll_value", got, ref, "direct", cls=cls)
     nz = False
+    # gradients of both sides lose cond(K+S)*eps digits: 1e-7 up to cond 1e7, then proportional (1e-5 at cond 1e9 is the cap:
+    # worse-conditioned cells are decided on the value only)
+    cond = _COND.get("A", 1.0)
+    gt = min(max(1e-7, 1e-14 * cond), 1e-5)
+    if cond > 1e9:
+        ctx.hit("info:grad_skipped_cond>1e9")
+        params, ggot, gref = [], [], []
     for p, a, r in zip(params, ggot, gref):
         if r is None and a is None:
             continue
         a = torch.zeros_like(p) if a is None else a
         r = torch.zeros_like(p) if r is None else r
-        ctx.close("mll_grad", a, r, (1e-7, 1e-7), cls=cls + ":grad")
+        ctx.close("mll_grad", a, r, (gt, gt), cls=cls + ":grad")
         nz = nz or float(r.abs().max()) > 1e-6
     ctx.cell({k: v for k, v in case.items() if k != "seed"}, nontrivial=case["n"] >= 2 and nz)
 
